@@ -926,4 +926,67 @@ def unmarshal (c : Cfg) (ty : Ty) (j : J) : Except Err Val :=
     | _ => .error .unsupported
   | _ => .error .outside
 
+/-! ## rest/httpx.Parse: path, form, header and JSON body unmarshalers on one target -/
+
+def httpCfgPath (pinned : Bool) : Cfg := { fromString := true, pinned := pinned }
+def httpCfgForm (pinned : Bool) : Cfg := { fromString := true, fromArray := true, pinned := pinned }
+def httpCfgHeader (pinned : Bool) : Cfg := { fromString := true, canonical := true, pinned := pinned }
+def httpCfgJson (pinned : Bool) : Cfg := { pinned := pinned }
+
+/-- tags of a request struct are written `key|value` (one tag key per field) -/
+def splitTag (tv : Str) : Str × Str := (tv.takeWhile (· ≠ '|'), (tv.dropWhile (· ≠ '|')).drop 1)
+
+/-- the fields as the unmarshaler with tag key `key` sees them: fields tagged with another key are skipped (`usingDifferentKeys`) -/
+def viewFields (key : Str) : Fields → Fields
+  | .nil => .nil
+  | .cons n tag t rest =>
+    .cons n (match tag with
+             | none => none
+             | some tv => if (splitTag tv).1 = key then some (splitTag tv).2 else none) t (viewFields key rest)
+
+def stripArraySuffix (k : Str) : Str :=
+  if "][".toList.isPrefixOf k.reverse then (k.reverse.drop 2).reverse else k
+
+/-- `GetFormValues`: empty values are ignored, a name without values left is dropped, a trailing `[]` of the name is cut;
+every value list is handed over as a `[]string` -/
+def formParams : List (Str × List Str) → Obj
+  | [] => []
+  | (k, vs) :: rest =>
+    if (vs.filter (fun v => !v.isEmpty)).isEmpty then formParams rest
+    else (stripArraySuffix k, .arr ((vs.filter (fun v => !v.isEmpty)).map .str)) :: formParams rest
+
+/-- `encoding.ParseHeaders`: a single value is handed over as a string, several as a `[]string`
+(net/http has canonicalised the names) -/
+def headerParams : List (Str × List Str) → Obj
+  | [] => []
+  | (_, []) :: rest => headerParams rest
+  | (k, [v]) :: rest => (canonKey k, .str v) :: headerParams rest
+  | (k, vs) :: rest => (canonKey k, .arr (vs.map .str)) :: headerParams rest
+
+/-- every field keeps the value of the unmarshaler that owns its tag key -/
+def mergeViews : Fields → VFields → VFields → VFields → VFields → VFields
+  | .cons n tag _ rest, .cons _ v1 r1, .cons _ v2 r2, .cons _ v3 r3, .cons _ v4 r4 =>
+    let k := match tag with | some tv => (splitTag tv).1 | none => []
+    .cons n (if k = "path".toList then v1 else if k = "form".toList then v2 else if k = "header".toList then v3 else v4)
+      (mergeViews rest r1 r2 r3 r4)
+  | _, _, _, _, _ => .nil
+
+/-- `httpx.Parse(r, &v)`: ParsePath, ParseForm, ParseHeaders, ParseJsonBody in this order, the first error wins;
+without a JSON body the json unmarshaler runs on the empty object -/
+def httpParse (pinned : Bool) (fs : Fields) (p : Obj) (f h : List (Str × List Str)) (b : Option J) :
+    Except Err VFields :=
+  match unmFields (httpCfgPath pinned) (viewFields "path".toList fs) p with
+  | .error e => .error e
+  | .ok v1 =>
+    match unmFields (httpCfgForm pinned) (viewFields "form".toList fs) (formParams f) with
+    | .error e => .error e
+    | .ok v2 =>
+      match unmFields (httpCfgHeader pinned) (viewFields "header".toList fs) (headerParams h) with
+      | .error e => .error e
+      | .ok v3 =>
+        match unmarshal (httpCfgJson pinned) (.struct (viewFields "json".toList fs)) (b.getD (.obj [])) with
+        | .ok (.struct v4) => .ok (mergeViews fs v1 v2 v3 v4)
+        | .ok _ => .error .outside
+        | .error e => .error e
+
 end GoZero.C08
